@@ -94,6 +94,23 @@ class BalanceDomain(Domain):
                     if isinstance(e, ast.Name):
                         cnt[e.id] = cnt.get(e.id, 0) + 1
         self.flaggable = {k for k, v in cnt.items() if v > 1}
+        # `x is None` correlation: only locals compared with None in more
+        # than one test
+        cn = {}
+        for n in own_nodes(fi.node):
+            if isinstance(n, (ast.If, ast.While, ast.IfExp)):
+                for e in ast.walk(n.test):
+                    if isinstance(e, ast.Compare) and len(e.ops) == 1 and \
+                            isinstance(e.ops[0], (ast.Is, ast.IsNot)) and \
+                            isinstance(e.left, ast.Name) and isinstance(
+                                e.comparators[0], ast.Constant) and \
+                            e.comparators[0].value is None:
+                        cn[e.left.id] = cn.get(e.left.id, 0) + 1
+        # ... and bound once (a parameter, or a single assignment): a
+        # re-assigned local would only multiply states
+        self.none_flaggable = {
+            k for k, v in cn.items() if v > 1 and
+            len(model.local_defs(fi, k)) == 1}
 
     # ----------------------------------------------------------- helpers
     def flag_helper_call(self, stmt, st):
@@ -398,6 +415,7 @@ class BalanceDomain(Domain):
     def _forget(self, name, st):
         st.consts.pop(name, None)
         st.flags.pop(name, None)
+        st.flags.pop(name + '#none', None)
         st.alias.pop(name, None)
         if name in st.fresh:
             st.fresh = st.fresh - {name}
@@ -429,6 +447,20 @@ class BalanceDomain(Domain):
                 if isinstance(l, ast.Name) and l.id == st.counter and \
                         okr and rv is None:
                     return [(isinstance(op, ast.IsNot), st)]
+                # `x is None` on an unmodified local tested more than
+                # once: the answer is the same at every test
+                if isinstance(l, ast.Name) and okr and rv is None and \
+                        l.id in self.none_flaggable and \
+                        l.id != st.counter:
+                    key = l.id + '#none'
+                    pos = isinstance(op, ast.Is)
+                    if key in st.flags:
+                        return [(st.flags[key] == pos, st)]
+                    t = st.copy()
+                    t.flags[key] = pos
+                    f = st.copy()
+                    f.flags[key] = not pos
+                    return [(True, t), (False, f)]
             if isinstance(op, (ast.Eq, ast.NotEq)):
                 okl, lv = self.const_of(l, st)
                 okr, rv = self.const_of(r, st)
@@ -464,11 +496,13 @@ class BalanceDomain(Domain):
                 if isinstance(n, ast.Name) and isinstance(n.ctx, ast.Store):
                     names.add(n.id)
             node._dt_assigned = names
-        if any(n in st.consts or n in st.flags for n in names):
+        if any(n in st.consts or n in st.flags or n + '#none' in st.flags
+               for n in names):
             st = st.copy()
             for n in names:
                 st.consts.pop(n, None)
                 st.flags.pop(n, None)
+                st.flags.pop(n + '#none', None)
         return st
 
     def for_target(self, node, st):
@@ -560,6 +594,22 @@ def analyse_function(model, fi, counters, rm, helpers=None,
 
 
 def rule_balance(model):
+    try:
+        return _rule_balance(model)
+    except AnalysisError as e:
+        if 'state budget exceeded' not in str(e) or not model.inline:
+            raise
+    # the view with new helpers inlined has too many paths through one
+    # function (a helper inlined at several call sites multiplies them):
+    # judge the sources as written instead -- a helper that pushes is then
+    # a function of its own with the same obligation
+    res = _rule_balance(model.plain_view())
+    res[0].stats['view'] = 'as written (inlined view exceeded the state ' \
+        'budget)'
+    return res
+
+
+def _rule_balance(model):
     r1 = RuleResult('C08.R1', 'push/pop depth on caller-provided namespaces '
                     'is 0 at every normal and exceptional exit')
     r2 = RuleResult('C08.R2', 'a modified recursion level is restored on '
